@@ -16,6 +16,7 @@ from vf import faults, gen as G, model as M, opwork as W, oracle as O, props as 
 from vf.checks.common import Case, exc_text
 
 ID = "C01"
+TECHNIQUE = "runtime monitoring: reference-model (exact shadow model) monitor over operator and program executions, logical step budget"
 LEVEL = "exploration"
 RULE = ("random operand pairs over kinds {simple, connected, disjoint, unbounded simple, unbounded connected, Empty, Whole}^2, "
         "numeric kinds int/Fraction/float, degrees 1-3, placements far / nested / overlapping / close, all operator spellings "
